@@ -5,6 +5,8 @@ import re
 from . import core, tlc, fakes
 from .tlaval import FnDict
 
+from twisted.python import components
+
 from txdbus import objects, interface, message
 
 ACTIONS = {'Export': ('p', 'k'), 'Unexport': ('p',)}
@@ -13,8 +15,9 @@ BASE = 'MC_ObjTree'
 
 I1 = interface.DBusInterface('org.verif.I1', interface.Method('Ping1', returns='s'),
                              interface.Property('p1', 'i'), interface.Property('p2', 'i'), noRegister=True)
+# (I2 also declares a write-only 'p2': K2 binds its p2 explicitly to I1's readable declaration of that name)
 I2 = interface.DBusInterface('org.verif.I2', interface.Method('Ping2', returns='s'), interface.Property('q', 's'), interface.Property('w', 'u', readable=False, writeable=True),
-                             noRegister=True)
+                             interface.Property('p2', 'i', readable=False, writeable=True), noRegister=True)
 
 
 class K1(objects.DBusObject):
@@ -33,7 +36,7 @@ class K2(K1):
     dbusInterfaces = [I2]
     q = objects.DBusProperty('q')
     w = objects.DBusProperty('w')
-    p2 = objects.DBusProperty('p2')          # one more property of the BASE class's interface
+    p2 = objects.DBusProperty('p2', interface='org.verif.I1')          # one more property of the BASE class's interface
 
     def __init__(self, path):
         K1.__init__(self, path)
@@ -49,6 +52,15 @@ class K2(K1):
 
 
 CLS = {'K1': K1, 'K2': K2}
+
+
+class Boxed:
+    """an application object that is not a DBusObject itself: it is exported through the adapter registered for it"""
+    def __init__(self, impl):
+        self.impl = impl
+
+
+components.registerAdapter(lambda boxed: boxed.impl, Boxed, objects.IDBusObject)
 PROPS = 'org.freedesktop.DBus.Properties'
 EXPECT = {'K1': {'org.verif.I1': {'p1': 7}, PROPS: {}},
           'K2': {'org.verif.I1': {'p1': 7, 'p2': 0}, 'org.verif.I2': {'q': ''}, PROPS: {}}}
@@ -97,7 +109,8 @@ class TreeDriver:
             key = (args[0], args[1])
             if key not in self.made:
                 self.made[key] = CLS[args[1]](pstr(args[0]))
-            self.h.exportObject(self.made[key])
+            # every third export goes through an adapter
+            self.h.exportObject(Boxed(self.made[key]) if (len(self.made) + len(args[0])) % 3 == 0 else self.made[key])
             if (len(args[0]) + len(self.made)) % 2 == 0:
                 self.h_b.exportObject(self.made[key])
                 self.on_b.add(args[0])
